@@ -514,6 +514,15 @@ func (check) Run(seed int64, tier string, idx int, verbose bool) harness.Result 
 			res.Key(fmt.Sprintf("%d|%d|%s", idx, round, normalise(stream)))
 			res.Ev("rounds_with_overlap", 1)
 		}
+		if len(stream) == 0 {
+			// the yield hook was not reached (e.g. its call site moved): the race
+			// detector, the baseline comparison and the fingerprint still judge
+			// the round; only the interleaving evidence is missing
+			res.Key(fmt.Sprintf("%d|%d|no-hook-stream", idx, round))
+			if round == 0 {
+				res.Inconc("yield hook produced no events: interleavings cannot be shown for this case")
+			}
+		}
 		res.Ev("goroutine_switches_at_hook", int64(switches))
 		if m := mismatch.Load(); m != nil {
 			sig := "concurrent-read-differs-from-sequential"
